@@ -93,7 +93,109 @@ def reference(d: str) -> tuple[Any, Any]:
     return _REF["ref"]
 
 
+SCHEMA_ACTIONS = {getattr(sqlite3, n) for n in dir(sqlite3) if n.startswith(("SQLITE_CREATE_", "SQLITE_DROP_", "SQLITE_ALTER_"))}
+
+
+def prefix_states(d: str) -> list[tuple[Any, Any]]:
+    """(schema, versions) of a database at version k = 0..N with the bookkeeping table: the states a migrator that
+    applies each migration atomically can leave behind"""
+    if "prefix" not in _REF:
+        out = []
+        files = migration_files()
+        for k in range(0, len(files) + 1):
+            p = os.path.join(d, f"prefix{k}.db")
+            c = sqlite3.connect(p)
+            c.executescript(M._SCHEMA_MIGRATIONS_DDL)
+            for ver, text in files:
+                if ver <= k:
+                    c.executescript(text)
+                    c.execute("INSERT INTO schema_migrations (package, version) VALUES ('server', ?)", (ver,))
+            c.commit()
+            out.append((schema(c), versions(c)))
+            c.close()
+        _REF["prefix"] = out
+    return _REF["prefix"]
+
+
+def work_fault(case: Any) -> Any:
+    """run_migrations with the f-th schema-changing operation refused (disk full / I/O error / lock at that statement):
+    the file must be left at a version boundary, and the next run must converge"""
+    start, _tag, fault_at = case
+    d = tempfile.mkdtemp(prefix="vmc-c28f-")
+    v: list[Any] = []
+    reached = False
+    try:
+        ref_schema, ref_versions = reference(d)
+        allowed = prefix_states(d)
+        path = os.path.join(d, "t.db")
+        build_start(path, tuple(start))
+        oc = sqlite3.connect(path)
+        before = (schema(oc), versions(oc))
+        oc.close()
+        w = {"start": start[0], "fault": "schema_operation_refused"}
+        desc = f"start={start} fault at schema operation #{fault_at}"
+        conn = sqlite3.connect(path)
+        seen = {"n": 0}
+
+        def authorizer(action: int, a1: Any, a2: Any, db: Any, src: Any) -> int:
+            if action in SCHEMA_ACTIONS:
+                seen["n"] += 1
+                if seen["n"] == fault_at:
+                    return sqlite3.SQLITE_DENY
+            return sqlite3.SQLITE_OK
+
+        conn.set_authorizer(authorizer)
+        try:
+            M.run_migrations(conn)
+        except Exception:  # noqa: BLE001  (expected: the refused statement surfaces)
+            reached = True
+        if seen["n"] >= fault_at:
+            reached = True
+        try:
+            conn.close()  # the process gives up here: no commit by the caller
+        except Exception:  # noqa: BLE001
+            pass
+        if not reached:
+            return 1, 0, [], None, 1
+        oc = sqlite3.connect(path)
+        got = (schema(oc), versions(oc))
+        oc.close()
+        if got != before and got not in allowed:
+            cols = {k: [c[0] for c in cs] for k, cs in got[0]["columns"].items()}
+            v.append(("interrupted_migration_leaves_partial_schema", w,
+                      f"{desc}: schema is at no version boundary: recorded versions {got[1]}, columns {cols}"))
+        # the next start of the server runs the migrations again
+        for i in range(2):
+            c2 = sqlite3.connect(path)
+            try:
+                M.run_migrations(c2)
+                c2.commit()
+            except Exception as e:  # noqa: BLE001
+                v.append(("no_convergence_after_interrupted_migration", w, f"{desc}: run {i + 1} after the fault raised {type(e).__name__}: {e}"))
+                c2.close()
+                break
+            c2.close()
+            oc = sqlite3.connect(path)
+            got2 = (schema(oc), versions(oc))
+            n_rows = oc.execute("SELECT COUNT(*) FROM handlers").fetchone()[0]
+            oc.close()
+            if got2[0] != ref_schema or got2[1] != ref_versions:
+                v.append(("no_convergence_after_interrupted_migration", w,
+                          f"{desc}: run {i + 1} after the fault: versions {got2[1]} (expected {ref_versions}), schema equal to fresh: {got2[0] == ref_schema}"))
+                break
+            if start[0] != "fresh" and n_rows != 1:
+                v.append(("data_lost", w, f"{desc}: handlers rows {n_rows}"))
+                break
+    finally:
+        shutil.rmtree(d, ignore_errors=True)
+        _REF.pop("ref", None)
+        _REF.pop("prefix", None)
+    return 1, 1, [(c, w, dd, None) for c, w, dd in v], None, 3
+
+
 def work(case: Any) -> Any:
+    if len(case) == 3:
+        return work_fault(case)
     start, runs, commit, reuse = case
     d = tempfile.mkdtemp(prefix="vmc-c28-")
     v: list[Any] = []
@@ -154,14 +256,38 @@ def work(case: Any) -> Any:
 RULE = ("every starting schema {fresh; schema_migrations recorded up to k = 1..N; legacy PRAGMA user_version = k without the bookkeeping "
         "table} x 1..3 consecutive run_migrations() calls x {caller commits / only closes} x {connection reused / new connection per run} "
         "on real DB files with the repository's migration files; normalized sqlite_master + table_info, schema_migrations rows and a "
-        "pre-existing data row, observed through a separate connection after every run, compared with a freshly migrated database; "
+"pre-existing data row, observed through a separate connection after every run, compared with a freshly migrated database; "
+        "plus, for every starting schema, one run in which the f-th schema-changing operation is refused by an SQLite "
+        "authorizer (f = 1 .. number of such operations in a fresh run + 1): the abandoned file must sit at a version boundary and the following runs must converge; "
         "non-trivial = non-fresh start or repeated run")
+
+
+def _schema_ops_of_fresh_run() -> int:
+    d = tempfile.mkdtemp(prefix="vmc-c28n-")
+    try:
+        c = sqlite3.connect(os.path.join(d, "n.db"))
+        n = {"n": 0}
+
+        def a(action: int, *rest: Any) -> int:
+            if action in SCHEMA_ACTIONS:
+                n["n"] += 1
+            return sqlite3.SQLITE_OK
+
+        c.set_authorizer(a)
+        M.run_migrations(c)
+        c.close()
+        return n["n"]
+    finally:
+        shutil.rmtree(d, ignore_errors=True)
 
 
 def run(tier: str, seed: int) -> Any:
     n = len(migration_files())
     starts = [("fresh", 0)] + [("prefix", k) for k in range(1, n + 1)] + [("legacy", k) for k in range(1, n + 1)]
-    cases = [(s, r, c, u) for s in starts for r in (1, 2, 3) for c in (True, False) for u in (True, False)]
+    cases: list[Any] = [(s, r, c, u) for s in starts for r in (1, 2, 3) for c in (True, False) for u in (True, False)]
+    # fault injection: every schema-changing operation of every starting point refused once (positions beyond the last
+    # operation of a run are vacuous and counted as trivial)
+    cases += [(s, "fault", f) for s in starts for f in range(1, _schema_ops_of_fresh_run() + 2)]
     return run_grid(PID, RULE, cases, work, seed=seed, chunksize=2, assumptions=[
         "an 'earlier schema' is what the repository's own migration files produce up to version k (with or without the bookkeeping table)",
         "single process, no concurrent migrator"], extra={"migrations": n, "starts": len(starts)})
@@ -169,5 +295,5 @@ def run(tier: str, seed: int) -> Any:
 
 def replay(rec: dict[str, Any]) -> tuple[bool, str]:
     c = rec["case"]
-    _, _, v, _, _ = work((tuple(c[0]), c[1], c[2], c[3]))
+    _, _, v, _, _ = work((tuple(c[0]), c[1], c[2], c[3]) if len(c) == 4 else (tuple(c[0]), c[1], c[2]))
     return (not v), f"case={c}\n" + "\n".join(f"VIOLATED {cl} {w}: {d}" for cl, w, d, _ in v)
